@@ -651,7 +651,7 @@ impl<'a> Exec<'a> {
         let no_alnum = !q.chars().any(|c| c.is_alphanumeric());
         if self.on("C12") && no_alnum {
             self.out.evals += 1;
-            self.check_c12(ix, s, &model, &hits);
+            self.check_c12(ix, Some(s), &model, &hits);
         }
 
         // ---- C06: per-record verdict, cut to the best `limit`
@@ -670,7 +670,7 @@ impl<'a> Exec<'a> {
         }
     }
 
-    fn check_c12(&mut self, ix: usize, s: usize, model: &Model, hits: &Hits) {
+    fn check_c12(&mut self, ix: usize, s: Option<usize>, model: &Model, hits: &Hits) {
         let n = model.recs.len();
         let limit = model.limit;
         let want = n.min(limit);
@@ -777,9 +777,15 @@ impl<'a> Exec<'a> {
                 return;
             }
         }
-        let slot = &self.stores[&s];
         let tie = !distinct;
-        if n > limit && limit >= 1 && (tie || (slot.searched_before && slot.adds_since_empty_search > 0)) {
+        let added_since = match s {
+            Some(s) => {
+                let slot = &self.stores[&s];
+                slot.searched_before && slot.adds_since_empty_search > 0
+            }
+            None => true,
+        };
+        if n > limit && limit >= 1 && (tie || added_since) {
             self.out.nontrivial = true;
         }
     }
@@ -791,17 +797,20 @@ impl<'a> Exec<'a> {
             self.violate("C06", "C06.limit", ix, "", obs, format!("at most {} hits", model.limit), String::new());
             return;
         }
-        let mut ids = BTreeSet::new();
+        // record ids are the caller's and need not be unique: two records with one id are two records
         let model_ids: BTreeSet<usize> = model.recs.iter().map(|r| r.0).collect();
         let ids_unique = model_ids.len() == n;
-        for (id, _) in hits {
-            if ids_unique && !ids.insert(*id) {
-                self.violate("C06", "C06.duplicate", ix, "", obs, "no record returned twice".into(), String::new());
-                return;
+        if ids_unique {
+            let mut ids = BTreeSet::new();
+            for (id, _) in hits {
+                if !ids.insert(*id) {
+                    self.violate("C06", "C06.duplicate", ix, "", obs, "no record returned twice".into(), String::new());
+                    return;
+                }
             }
         }
-        if !ids_unique {
-            return;
+        if !ids_unique && n > 300 {
+            return; // with colliding ids every hit has many candidate records: too costly on large stores
         }
         let complete = n <= model.limit.saturating_mul(10) && n > 0;
         let (m, qq, hh) = (model.clone(), q.to_string(), hits.clone());
@@ -819,40 +828,39 @@ impl<'a> Exec<'a> {
                 lang = std::mem::replace(&mut st.lang, Lang::new());
                 r
             };
-            // soundness: every hit is what its record yields alone
-            let mut alone_for_hits: Vec<Hits> = Vec::new();
+            // soundness: every hit is what one of the records carrying its id yields alone
+            let mut alone_for_hits: Vec<Vec<Hits>> = Vec::new();
             for (id, _) in hh.iter() {
-                let rec = m.recs.iter().find(|r| r.0 == *id).cloned();
-                alone_for_hits.push(match rec {
-                    Some(rec) => single(&rec, m.limit),
-                    None => vec![(usize::MAX, "<id not in store>".to_string())],
-                });
+                let mut alts = Vec::new();
+                for rec in m.recs.iter().filter(|r| r.0 == *id) {
+                    alts.push(single(rec, m.limit));
+                }
+                alone_for_hits.push(alts);
             }
-            // completeness: unlimited list, and which records hit alone
+            // completeness: unlimited list, and what every record yields alone
             let mut unlimited: Option<Hits> = None;
-            let mut alone_ids: Vec<usize> = Vec::new();
+            let mut alone_all: Vec<(usize, String)> = Vec::new();
             if complete {
                 let mut big = m.clone();
                 big.limit = m.recs.len();
                 unlimited = Some(sut::search(&big.build(), &qq));
                 for rec in m.recs.iter() {
-                    if !single(rec, m.recs.len()).is_empty() {
-                        alone_ids.push(rec.0);
-                    }
+                    alone_all.extend(single(rec, m.recs.len()));
                 }
             }
-            (alone_for_hits, unlimited, alone_ids)
+            (alone_for_hits, unlimited, alone_all)
         });
-        let (alone_for_hits, unlimited, alone_ids) = match reference {
+        let (alone_for_hits, unlimited, alone_all) = match reference {
             Ok(x) => x,
             Err(p) => {
                 self.violate("C06", "C06.reference_panic", ix, &p.loc.clone(), obs, format!("reference stores panicked: {}", p.render()), String::new());
                 return;
             }
         };
-        for (hit, alone) in hits.iter().zip(alone_for_hits.iter()) {
-            if alone.len() != 1 || &alone[0] != hit {
-                self.violate("C06", "C06.soundness", ix, "", format!("{:?}", hit), format!("what the record yields alone: {}", fmt_hits(alone)), String::new());
+        for (hit, alts) in hits.iter().zip(alone_for_hits.iter()) {
+            if !alts.iter().any(|alone| alone.len() == 1 && &alone[0] == hit) {
+                let shown: Vec<String> = alts.iter().map(fmt_hits).collect();
+                self.violate("C06", "C06.soundness", ix, "", format!("{:?}", hit), format!("what the record(s) with that id yield alone: {}", shown.join(" / ")), String::new());
                 return;
             }
         }
@@ -870,10 +878,14 @@ impl<'a> Exec<'a> {
                 self.violate("C06", "C06.prefix_ties", ix, "", obs, format!("{} entries out of the unlimited list {}", want, fmt_hits(&u)), String::new());
                 return;
             }
-            let uid: BTreeSet<usize> = u.iter().map(|h| h.0).collect();
-            let aid: BTreeSet<usize> = alone_ids.iter().cloned().collect();
-            if uid != aid {
-                self.violate("C06", "C06.completeness", ix, "", format!("unlimited list ids {:?}", uid), format!("records that hit alone {:?}", aid), String::new());
+            // the unlimited list holds exactly the records that are hits on their own (as multisets:
+            // with duplicate ids or titles two records can yield the same (id, title))
+            let mut a = u.clone();
+            let mut b = alone_all.clone();
+            a.sort();
+            b.sort();
+            if a != b {
+                self.violate("C06", "C06.completeness", ix, "", format!("unlimited list (sorted) {}", fmt_hits(&a)), format!("what the records yield alone (sorted) {}", fmt_hits(&b)), String::new());
                 return;
             }
         }
@@ -1224,6 +1236,13 @@ impl<'a> Exec<'a> {
                         }
                         let slot = self.registry.get_mut(&(t, id)).unwrap();
                         slot.last_hits = h.clone();
+                        if self.prop == "C12" && !q.chars().any(|c| c.is_alphanumeric()) {
+                            // the same specification oracle through the top-level API
+                            let m = self.registry[&(t, id)].model.clone();
+                            self.out.evals += 1;
+                            self.check_c12(ix, None, &m, &h);
+                        }
+                        let slot = self.registry.get_mut(&(t, id)).unwrap();
                         if c20 {
                             self.out.evals += 1;
                             let mut expected: Option<Result<Hits, PanicInfo>> = None;
